@@ -4,6 +4,7 @@ package main
 
 import (
 	"fmt"
+	"go/ast"
 	"go/token"
 	"go/types"
 	"sort"
@@ -394,4 +395,70 @@ func sliceElemStruct(t types.Type) (*types.Struct, bool) {
 	}
 	st, ok := sl.Elem().Underlying().(*types.Struct)
 	return st, ok
+}
+
+// deepRoots follows a value back like valueRoots and, further, through the
+// module's own plumbing: a parameter of a private function (every use of
+// which is a static call) stands for what its callers pass, and a private
+// field stands for everything stored into it anywhere in the module.  accept
+// says which roots are final; the others are expanded where possible and
+// returned as they are where not.
+func (p *Prog) deepRoots(v ssa.Value, accept func(v ssa.Value) bool) []Root {
+	var out []Root
+	seenP := map[*ssa.Parameter]bool{}
+	seenF := map[*types.Var]bool{}
+	var walk func(v ssa.Value, depth int)
+	walk = func(v ssa.Value, depth int) {
+		if accept(v) {
+			out = append(out, Root{Kind: "accepted", V: v})
+			return
+		}
+		for _, x := range valueRoots(v, nil) {
+			if nil != x.V && x.V != v && accept(x.V) {
+				out = append(out, Root{Kind: "accepted", V: x.V})
+				continue
+			}
+			switch {
+			case depth < 6 && "param" == x.Kind:
+				pa := x.V.(*ssa.Parameter)
+				fn := pa.Parent()
+				if seenP[pa] {
+					continue
+				}
+				if nil == fn || !inModule(fn) || ast.IsExported(fn.Name()) || nil != fn.Parent() {
+					out = append(out, x)
+					continue
+				}
+				idx := paramIndex(fn, pa)
+				cs := p.callersOf(fn)
+				if 0 == len(cs) || len(p.usesOfFunc(fn)) != len(cs) {
+					out = append(out, x)
+					continue
+				}
+				seenP[pa] = true
+				for _, ci := range cs {
+					if idx < len(ci.Common().Args) {
+						walk(ci.Common().Args[idx], depth+1)
+					}
+				}
+			case depth < 6 && "field" == x.Kind && nil != x.Field && !x.Field.Exported() && nil != x.Field.Pkg() && strings.HasPrefix(x.Field.Pkg().Path(), ModPath):
+				if seenF[x.Field] {
+					continue
+				}
+				seenF[x.Field] = true
+				sts := p.storesToField(x.Field)
+				if 0 == len(sts) {
+					out = append(out, x)
+					continue
+				}
+				for _, st := range sts {
+					walk(st.Val, depth+1)
+				}
+			default:
+				out = append(out, x)
+			}
+		}
+	}
+	walk(v, 0)
+	return out
 }
